@@ -1248,7 +1248,8 @@ func (f *fragment) minRow(filter *Row) (uint64, uint64) {
 			return minRowID, 1
 		}
 		// iterate from min row ID and return the first that intersects with filter.
-		for i := minRowID; i <= f.maxRowID; i++ {
+		maxRowID := f.highestRowID()
+		for i := minRowID; i <= maxRowID; i++ {
 			row := f.row(i).Intersect(filter)
 			count := row.Count()
 			if count > 0 {
@@ -1259,18 +1260,26 @@ func (f *fragment) minRow(filter *Row) (uint64, uint64) {
 	return 0, 0
 }
 
+// highestRowID returns the highest row that holds a bit right now. Unlike
+// f.maxRowID it is not a high-water mark: it goes down again when the top row
+// is cleared and it sees rows written by setRow and importRoaring.
+func (f *fragment) highestRowID() uint64 {
+	return f.storage.Max() / ShardWidth
+}
+
 // maxRow returns maxRowID of the rows in the filter and its count.
-// if filter is nil, it returns fragment.maxRowID, 1
+// if filter is nil, it returns the highest row that holds a bit, 1
 // if fragment has no rows, it returns 0, 0
 func (f *fragment) maxRow(filter *Row) (uint64, uint64) {
 	minRowID, hasRowID := f.minRowID()
 	if hasRowID {
+		maxRowID := f.highestRowID()
 		if filter == nil {
-			return f.maxRowID, 1
+			return maxRowID, 1
 		}
 		// iterate back from max row ID and return the first that intersects with filter.
 		// TODO: implement reverse container iteration to improve performance here for sparse data. --Jaffee
-		for i := f.maxRowID; i >= minRowID; i-- {
+		for i := maxRowID; i >= minRowID; i-- {
 			row := f.row(i).Intersect(filter)
 			count := row.Count()
 			if count > 0 {
